@@ -125,9 +125,14 @@ func (ev *Ev) lenOf(v Value, at ast.Expr) Value {
 	if v.Typ != nil {
 		switch ut := v.Typ.Underlying().(type) {
 		case *types.Map:
-			_, _, card, _, _ := ev.mapFams(ut, "", SRef)
+			dom, _, card, ds, _ := ev.mapFams(ut, "", SRef)
 			t := app("select", u.fam(ev.st, card, arraySort(SRef, SInt)), v.T)
 			ev.st.assume(app(">=", t, "0"))
+			if !ev.spec && !strings.Contains(v.T, "$") {
+				// a map has no entries iff its key set is empty
+				_, inner, _ := ds.isArray()
+				ev.st.assume(app("=", app("=", t, "0"), app("=", app("select", u.fam(ev.st, dom, ds), v.T), fmt.Sprintf("((as const %s) false)", inner))))
+			}
 			return intV(t)
 		case *types.Chan:
 			t := app("select", u.fam(ev.st, "CH:len", arraySort(SRef, SInt)), v.T)
@@ -238,8 +243,10 @@ func (ev *Ev) builtin(name string, x *ast.CallExpr) Value {
 				for _, lf := range u.leaves(st.Elem()) {
 					key, as := ev.elemFam(typeKey(st.Elem()), lf.path, lf.sort)
 					cur := u.fam(ev.st, key, as)
-					ev.st.assume(fmt.Sprintf("(forall ((i Int)) (! (= (select (select %s %s) i) (ite (< i %s) (select (select %s %s) i) (select (select %s %s) (- i %s)))) :pattern ((select (select %s %s) i))))",
-						cur, arr, s.Comp["#len"].T, cur, s.Comp["#arr"].T, cur, tt.Comp["#arr"].T, s.Comp["#len"].T, cur, arr))
+					sArr, sOff := u.resolveView(s.Comp["#arr"].T, "i")
+					tArr, tOff := u.resolveView(tt.Comp["#arr"].T, app("-", "i", s.Comp["#len"].T))
+					ev.st.assume(fmt.Sprintf("(forall ((i Int)) (! (= (select (select %s %s) i) (ite (< i %s) (select (select %s %s) %s) (select (select %s %s) %s))) :pattern ((select (select %s %s) i))))",
+						cur, arr, s.Comp["#len"].T, cur, sArr, sOff, cur, tArr, tOff, cur, arr))
 				}
 			}
 			return res
@@ -260,7 +267,14 @@ func (ev *Ev) builtin(name string, x *ast.CallExpr) Value {
 			walkValue(val, "", func(path string, l Value) {
 				key, as := ev.elemFam(typeKey(st.Elem()), path, l.S)
 				f := u.fam(ev.st, key, as)
-				u.setFam(ev.st, key, as, app("store", f, arr, app("store", app("select", f, cur.Comp["#arr"].T), cur.Comp["#len"].T, l.T)))
+				old := app("select", f, cur.Comp["#arr"].T)
+				if bArr, bIdx := u.resolveView(cur.Comp["#arr"].T, "i"); bArr != cur.Comp["#arr"].T {
+					// appending to a re-sliced view: the copied prefix is read from the base array at the view's offset
+					_, es, _ := as.isArray()
+					old = u.fresh("viewcopy", es)
+					ev.st.assume(fmt.Sprintf("(forall ((i Int)) (! (= (select %s i) (select (select %s %s) %s)) :pattern ((select %s i))))", old, f, bArr, bIdx, old))
+				}
+				u.setFam(ev.st, key, as, app("store", f, arr, app("store", old, cur.Comp["#len"].T, l.T)))
 			})
 			nxt := Value{K: vSlice, Typ: s.Typ, Comp: map[string]Value{"#arr": scalar(arr, SRef, nil), "#len": intV(app("+", cur.Comp["#len"].T, "1"))}}
 			if ss := u.setSortOf(st.Elem()); ss != "" && val.K == vScalar {
@@ -278,14 +292,16 @@ func (ev *Ev) builtin(name string, x *ast.CallExpr) Value {
 			return ev.errorf(x.Pos(), "unsupported copy")
 		}
 		n := app("imin", dst.Comp["#len"].T, src.Comp["#len"].T)
+		dArr, dOff := u.resolveView(dst.Comp["#arr"].T, "0")
+		sArr, sOff := u.resolveView(src.Comp["#arr"].T, "0")
 		for _, lf := range u.leaves(st.Elem()) {
 			key, as := ev.elemFam(typeKey(st.Elem()), lf.path, lf.sort)
 			cur := u.fam(ev.st, key, as)
 			nw := u.havocFam(ev.st, key, as)
-			// all other arrays unchanged; dst elements below n copied, above n kept
-			ev.st.assume(fmt.Sprintf("(forall ((r Ref)) (! (=> (not (= r %s)) (= (select %s r) (select %s r))) :pattern ((select %s r))))", dst.Comp["#arr"].T, nw, cur, nw))
-			ev.st.assume(fmt.Sprintf("(forall ((i Int)) (! (= (select (select %s %s) i) (ite (and (<= 0 i) (< i %s)) (select (select %s %s) i) (select (select %s %s) i))) :pattern ((select (select %s %s) i))))",
-				nw, dst.Comp["#arr"].T, n, cur, src.Comp["#arr"].T, cur, dst.Comp["#arr"].T, nw, dst.Comp["#arr"].T))
+			// all other arrays unchanged; dst elements [off, off+n) copied from the source as it was before the call, the rest kept
+			ev.st.assume(fmt.Sprintf("(forall ((r Ref)) (! (=> (not (= r %s)) (= (select %s r) (select %s r))) :pattern ((select %s r))))", dArr, nw, cur, nw))
+			ev.st.assume(fmt.Sprintf("(forall ((i Int)) (! (= (select (select %s %s) i) (ite (and (<= %s i) (< i (+ %s %s))) (select (select %s %s) (+ (- i %s) %s)) (select (select %s %s) i))) :pattern ((select (select %s %s) i))))",
+				nw, dArr, dOff, dOff, n, cur, sArr, dOff, sOff, cur, dArr, nw, dArr))
 		}
 		return intV(n)
 	case "delete":
@@ -1125,7 +1141,8 @@ func (u *Unit) havocModifies(sev *Ev, mods []Clause, c *Contract) {
 							key, as := sev.elemFam(typeKey(el), lf.path, lf.sort)
 							cur := u.fam(st, key, as)
 							fr := u.fresh("elems", arraySort(SInt, lf.sort))
-							u.setFam(st, key, as, app("store", cur, v.Comp["#arr"].T, fr))
+							arrT, _ := u.resolveView(v.Comp["#arr"].T, "0") // a re-sliced view: the whole base array may change
+							u.setFam(st, key, as, app("store", cur, arrT, fr))
 						}
 					}
 					continue
